@@ -15,7 +15,8 @@ AltWrap(b, n, c, t) ==
 Build(shape, b, n, c) == IF shape = "ideal" THEN Wrap(b, n, c, "L") ELSE AltWrap(b, n, c, "L")
 
 Bodies == UNION {[1..len -> {Op(o) : o \in Ops}] : len \in 0..MaxBody}
-Decl(c) == [key |-> "DECLARE ctr", text |-> "DECLARE ctr INTEGER[1]", sec |-> 1]
+\* the counter region is declared long enough to hold the cell that is used: INTEGER[c + 1]
+Decl(c) == [key |-> "DECLARE ctr", text |-> "DECLARE ctr INTEGER[" \o ToString(c + 1) \o "]", sec |-> 1]
 Defs0 == <<[key |-> "PRAGMA EXTERN f", text |-> "PRAGMA EXTERN f", sec |-> 0],
            [key |-> "DECLARE ro", text |-> "DECLARE ro BIT[2]", sec |-> 1],
            [key |-> "DEFGATE G", text |-> "DEFGATE G", sec |-> 5]>>
